@@ -442,8 +442,9 @@ class Prop(Check):
         "Select.C32_lastwins_false",
     ]
     DRIVER = "Drivers/Select.lean"
-    QUICK_CASES = 520
-    THOROUGH_CASES = 8000
+    QUICK_CASES = 380
+    THOROUGH_CASES = 4000
+    PROCS_THOROUGH = 4  # shared machine while the framework is being built
     RULE = ("select: complete enumeration of the 2^4 subsets of {Rule.attr, *.attr, Rule.*, *.*} x {no grammar RREL, "
             "grammar RREL} x {single, list attribute} x {provider objects, RREL strings} (128 cases, first in every run), "
             "then random grammars with 1..3 reference rules, 1..2 alternatives assigning t / ts(list) / u, random "
@@ -685,10 +686,13 @@ class Prop(Check):
     # ---------------------------------------------------------------- shrinking / search
     def shrink(self, case):
         if case["kind"] != "select":
-            for i in range(len(case["refs"])):
-                yield dict(case, refs=case["refs"][:i] + case["refs"][i + 1:])
             if case.get("lib"):
                 yield dict(case, lib=None)
+            for i in range(len(case["refs"])):
+                # with a second file keep a reference through the attribute under test in the main file (see gen_rrelsame)
+                if case.get("lib") and case["where"] == "Ref.target" and len(case["refs"]) == 1:
+                    continue
+                yield dict(case, refs=case["refs"][:i] + case["refs"][i + 1:])
             return
         for i in range(len(case["objs"])):
             if len(case["objs"]) > 1:
@@ -700,6 +704,10 @@ class Prop(Check):
                 if o.get(drop):
                     o2 = {k: v for k, v in o.items() if k != drop}
                     yield dict(case, objs=case["objs"][:i] + [o2] + case["objs"][i + 1:])
+        for ri in range(len(case["rules"])):
+            if len(case["rules"]) > 1 and all(o["rule"] != ri for o in case["objs"]):
+                objs = [dict(o, rule=o["rule"] - 1) if o["rule"] > ri else o for o in case["objs"]]
+                yield dict(case, rules=case["rules"][:ri] + case["rules"][ri + 1:], objs=objs)
         used = {(o["rule"], o["alt"]) for o in case["objs"]}
         for ri, r in enumerate(case["rules"]):
             for ai in range(len(r["alts"])):
